@@ -286,9 +286,9 @@ def c20(tier, repo=None):
         models = [("seq", 2, 0, ["AllOutcome", "FrozenMaps"]), ("seqp", 2, 0, ["AllOutcome", "FrozenMaps"]), ("seqs", 1, 1, ["AllOutcome", "FrozenMaps"]),
                   ("wf", 0, 3, ["AllOutcome", "FrozenMaps"]), ("wfin", 4, 1, ["AllOutcome", "FrozenMaps"]), ("flow", 2, 1, ["AllOutcome", "FrozenMaps"]),
                   ("chain", 3, 3, ["AllOutcome", "FrozenMaps"]), ("cyc", 3, 0, ["AllOutcome", "FrozenMaps"], 2),
-                  ("subopt", 0, 2, ["AllOutcome", "FrozenMaps"]), ("wfpt", 2, 1, ["AllOutcome", "FrozenMaps"])]
+                  ("subopt", 0, 2, ["AllOutcome", "FrozenMaps"]), ("wfpt", 2, 0, ["AllOutcome", "FrozenMaps"])]
         fams = [dict(fam="seq", adds=2, post=0), dict(fam="seqp", adds=2, post=0), dict(fam="seqs", adds=1, post=1), dict(fam="wf", adds=0, post=3),
-                dict(fam="wfin", adds=4, post=1), dict(fam="chain", adds=3, post=3), dict(fam="cyc", adds=3, post=0, br=2), dict(fam="subopt", adds=0, post=2), dict(fam="wfpt", adds=2, post=1, att=40),
+                dict(fam="wfin", adds=4, post=1), dict(fam="chain", adds=3, post=3), dict(fam="cyc", adds=3, post=0, br=2), dict(fam="subopt", adds=0, post=2), dict(fam="wfpt", adds=2, post=0, att=40),
                 dict(fam="cyc", adds=5, post=1, br=3, simulate="num=3000", depth=80),
                 dict(fam="flow", adds=2, post=1, timeout=1500),
                 dict(fam="seqs", adds=3, post=1, aftererr=2, simulate="num=2500", depth=60),
